@@ -278,6 +278,24 @@ func init() {
 		x, y := c.big("x", p.x), c.big("y", p.y)
 		c.call(true, func() []interface{} { return []interface{}{S().IsOnCurve(x, y)} })
 	})
+	// coordinates wider than the field (hand-built big.Ints / keys): whatever the answer, the caller's integers stay as they are
+	add("bec.KoblitzCurve.IsOnCurve", func(c *memCtx) {
+		p := somePoint(c.r)
+		wide := func(v *big.Int) *big.Int {
+			return new(big.Int).Add(v, new(big.Int).Lsh(curveP, uint(8*(1+c.r.intn(3)))))
+		}
+		x, y := c.big("x", wide(p.x)), c.big("y", wide(p.y))
+		k := c.bytes("k", c.r.bytes(32))
+		h := c.bytes("hash", c.r.bytes(32))
+		sg := c.sig(new(big.Int).SetBytes(c.r.bytes(31)), new(big.Int).SetBytes(c.r.bytes(31)))
+		pk := &bec.PublicKey{Curve: S(), X: x, Y: y}
+		c.call(true, func() []interface{} {
+			ax, ay := S().Add(x, y, x, y)
+			dx, dy := S().Double(x, y)
+			mx, my := S().ScalarMult(x, y, k)
+			return []interface{}{S().IsOnCurve(x, y), ax, ay, dx, dy, mx, my, sg.Verify(h, pk)}
+		})
+	})
 	add("bec.KoblitzCurve.Add", func(c *memCtx) {
 		p, q := somePoint(c.r), somePoint(c.r)
 		if c.r.coin(1, 4) {
@@ -614,6 +632,21 @@ func init() {
 	add("chaincfg.HDPrivateKeyToPublicKeyID", func(c *memCtx) {
 		id := c.bytes("id", chaincfg.MainNet.HDPrivateKeyID[:])
 		c.call(true, func() []interface{} { b, e := chaincfg.HDPrivateKeyToPublicKeyID(id); return []interface{}{b, e} })
+	})
+	add("chaincfg.Register", func(c *memCtx) { // a network that shares an already registered private id but has its own public id
+		p := chaincfg.MainNet
+		p.Name = "mainnet-variant"
+		p.HDPublicKeyID = [4]byte{0x04, 0xb2, 0x47, 0x46}
+		c.str("MainNet", func() string { return fmt.Sprint(chaincfg.MainNet) })
+		c.str("TestNet", func() string { return fmt.Sprint(chaincfg.TestNet) })
+		c.str("params", func() string { return fmt.Sprint(p) })
+		xp, _ := someXKey(c.r, true).Neuter()
+		c.xkey(xp)
+		c.call(true, func() []interface{} {
+			err := chaincfg.Register(&p)
+			_ = chaincfg.Register(&chaincfg.MainNet) // put the registry back for everything that runs later
+			return []interface{}{err, xp.IsForNet(&chaincfg.MainNet)}
+		})
 	})
 	add("chaincfg.Register", func(c *memCtx) {
 		p := *nets[2].params
